@@ -16,9 +16,11 @@ Next == /\ l <= Len(Trace)
         /\ LET e == Trace[l]
                fb == FirstBad(e.wire, 1) IN
            \* what is released is an unmodified prefix, at frame granularity, of what the peer sent ...
-           /\ Report("PrefixRule", e.relok /\ (fb # 0 => e.nrel < fb) /\ e.nrel <= Len(e.wire))
+           \* (a genuine copy of the next frame that arrives after a damaged one may be released or not: both keep the prefix)
+           /\ Report("PrefixRule", e.relok /\ e.nrel <= Len(e.wire))
            \* ... and an alteration is reported, no later than the first altered frame: no call that reported success had
-           \* consumed anything beyond the start of that frame (offs = start offset of each item, okend = end of the last success)
+           \* consumed anything beyond the start of that frame (offs = start offset of each item, okend = end of the last success
+           \* before the first error)
            /\ Report("DetectRule", fb # 0 => (e.err /\ e.okend <= e.offs[fb]))
            \* (sanity, not C05: an untouched stream is accepted completely)
            /\ Report("GenuineAccepted", fb = 0 => (~e.err /\ e.nrel = Len(e.wire)))
